@@ -320,6 +320,25 @@ def recoverChainFail (invalid : BranchId → List Nat) (batchSize target : Nat) 
     if target ≤ st'.calls then some (st, done)
     else recoverChainFail invalid batchSize target fuel st' (blocks.drop bs) (done + bs)
 
+/-! ### Start-up against a backend that is still catching up (full node in initial block download)
+
+On a production network (`!isDevEnv()`: MainNet, TestNet, SigNet) `syncWithChain` FIRST waits until the backend reports
+itself current (`waitUntilBackendSynced`, polling `IsCurrent()` once a second) and only then locates the birthday block,
+checks for a rollback and runs `recovery()`.  `recovery()` reads `GetBestBlock` once, at its start, and scans with the
+look-ahead up to that height only; the rescan that follows watches the addresses already derived and stored — not the
+look-ahead — and `RescanFinished` marks the wallet synced to the backend's tip.  `download` = number of blocks above
+genesis the node had when the wallet connected. -/
+
+/-- The blocks `recovery()` gets to scan when the backend had `download` blocks at connect time and the whole chain
+    `blocks` once current: all of them iff the wallet waited first. -/
+def scannedAtStartup (waitFirst : Bool) (download : Nat) (blocks : List (Nat × Block)) : List (Nat × Block) :=
+  if waitFirst then blocks else blocks.take download
+
+/-- The recovery part of the start-up sync of a wallet just created from its seed. -/
+def startupRecover (invalid : BranchId → List Nat) (window batchSize : Nat) (scopes : List Nat) (waitFirst : Bool)
+    (download : Nat) (blocks : List (Nat × Block)) (cuts : Nat → Bool) : State :=
+  recover invalid window batchSize scopes (scannedAtStartup waitFirst download blocks) cuts
+
 /-- `CalculateBalance(1)` / the `UnspentOutputs` listing: unspent credits that are not `hidden`. -/
 def spendable (st : State) : List Credit := st.credits.filter (fun c => !c.spent && !hidden st c.op)
 
